@@ -391,6 +391,8 @@ type found struct {
 	Run  uint64
 	Case json.RawMessage
 	V    sim.Violation
+	Hist []uint64 // the runs the same worker process had executed before this one
+	Tier string
 }
 
 type info struct {
@@ -648,6 +650,7 @@ func checkProperty(prop, tier string, seed uint64, runs, budget, workers int, re
 			return -1
 		}
 		var begun int64 = -1
+		var hist []uint64 // runs this process has completed
 		var wmu sync.Mutex
 		killed := int64(-1)
 		stop := make(chan struct{})
@@ -700,11 +703,12 @@ func checkProperty(prop, tier string, seed uint64, runs, budget, workers int, re
 						}
 						if len(l.Viol) > 0 {
 							for _, v := range l.Viol {
-								founds = append(founds, found{l.Run, l.Case, v})
+								founds = append(founds, found{l.Run, l.Case, v, append([]uint64{}, hist...), tier})
 							}
 						} else if l.Case != nil && len(samples) < 3 {
 							samples = append(samples, l.Case)
 						}
+						hist = append(hist, l.Run)
 					case "stats":
 						agg.Add(l.Stats)
 					case "infra":
@@ -837,7 +841,7 @@ func checkProperty(prop, tier string, seed uint64, runs, budget, workers int, re
 								nontrivial[l.FP] = true
 							}
 							for _, v := range l.Viol {
-								founds = append(founds, found{l.Run, l.Case, v})
+								founds = append(founds, found{Run: l.Run, Case: l.Case, V: v})
 							}
 						case "stats":
 							agg.Add(l.Stats)
@@ -875,7 +879,7 @@ func checkProperty(prop, tier string, seed uint64, runs, budget, workers int, re
 		if !livenessProps[prop] {
 			infra("run %d of %s does not terminate (case %s); this property has no liveness clause, so this is reported as trouble of the harness or the tree, not as a violation", h, prop, p)
 		}
-		founds = append(founds, found{h, caseJSON, v})
+		founds = append(founds, found{Run: h, Case: caseJSON, V: v})
 		hangsConfirmed++
 	}
 	// a run during which the process died with a fatal runtime error: confirmed when it dies again alone
@@ -892,7 +896,7 @@ func checkProperty(prop, tier string, seed uint64, runs, budget, workers int, re
 		v := sim.Violation{Prop: prop, Clause: "process-crash", Sig: fr.what, Detail: fmt.Sprintf("during run %d the process was aborted by the Go runtime: %s", fr.run, fr.what)}
 		p := writeReplay(prop, seed, fr.run, caseJSON, v)
 		if again := replayFatal(bi, in, p, tmp, hangLimit); again == fr.what {
-			founds = append(founds, found{fr.run, caseJSON, v})
+			founds = append(founds, found{Run: fr.run, Case: caseJSON, V: v})
 			hangsConfirmed++
 		} else {
 			fmt.Fprintf(os.Stderr, "check: run %d: the process was aborted (%s) inside a long-lived worker but not when the run is executed alone\n", fr.run, fr.what)
@@ -1246,7 +1250,77 @@ func minimiseAndReplay(bi *buildInfo, in *info, prop string, seed uint64, f foun
 			writeReplay(prop, seed, f.Run, f.Case, f.V)
 		}
 	}
+	// The case alone does not show the violation. It may need what earlier cases left behind in the worker process (state of
+	// the library that outlives a document and that no reset hook knows). Cases are functions of (seed, index), so the history
+	// of the process is part of a replayable trace: execute the earlier cases, then this one, in one fresh process.
+	if len(f.Hist) > 0 {
+		withHist := func(h []uint64) bool {
+			writeReplayHist(prop, seed, f.Run, f.Case, f.V, h, f.Tier)
+			rc := exec.Command(bi.Worker, "replay", "--file", orig, "--tmp", filepath.Join(tmp, "shrink", fmt.Sprintf("h%d_%d", f.Run, len(h))))
+			rc.Env = env
+			_, err := rc.CombinedOutput()
+			ee, ok := err.(*exec.ExitError)
+			return ok && ee.ExitCode() == 1
+		}
+		if withHist(f.Hist) {
+			best := f.Hist
+			// shortest suffix of the history that still shows it (doubling), then drop single cases from the front part
+			for n := 1; n < len(best); n *= 2 {
+				if cand := best[len(best)-n:]; withHist(cand) {
+					best = cand
+					break
+				}
+			}
+			// ddmin over the remaining history: drop chunks of halving size while the violation persists (bounded number of replays)
+			tries := 0
+			for chunk := (len(best) + 1) / 2; chunk >= 1 && tries < 60; {
+				removed := false
+				for i := 0; i+chunk <= len(best) && len(best) > 1 && tries < 60; {
+					cand := append(append([]uint64{}, best[:i]...), best[i+chunk:]...)
+					tries++
+					if len(cand) > 0 && withHist(cand) {
+						best, removed = cand, true
+					} else {
+						i += chunk
+					}
+				}
+				if chunk == 1 && !removed {
+					break
+				}
+				if chunk > 1 {
+					chunk = (chunk + 1) / 2
+				} else if !removed {
+					break
+				}
+			}
+			if withHist(best) { // leaves the final file on disk
+				fmt.Fprintf(os.Stderr, "check: run %d shows %s/%s only after %d earlier case(s) in the same process; the replay file lists them (process_history)\n", f.Run, f.V.Clause, f.V.Sig, len(best))
+				return orig, true
+			}
+		}
+		writeReplay(prop, seed, f.Run, f.Case, f.V)
+	}
 	return orig, false
+}
+
+// writeReplayHist is writeReplay with the process history the case needs.
+func writeReplayHist(prop string, seed, runIdx uint64, c json.RawMessage, v sim.Violation, hist []uint64, tier string) string {
+	var m map[string]any
+	dec := json.NewDecoder(bytes.NewReader(c))
+	dec.UseNumber()
+	dec.Decode(&m)
+	if m == nil {
+		m = map[string]any{}
+	}
+	m["expect"] = v
+	m["process_history"] = hist
+	m["process_history_tier"] = tier
+	b, _ := json.MarshalIndent(m, "", " ")
+	dir := filepath.Join(outDir, "replays")
+	os.MkdirAll(dir, 0o755)
+	p := filepath.Join(dir, fmt.Sprintf("%s-%d-%d.json", prop, seed, runIdx))
+	os.WriteFile(p, b, 0o644)
+	return p
 }
 
 // ---- determinism self-test ----------------------------------------------------------
